@@ -274,7 +274,14 @@ def run_kwargs(r, out):
     elif m < 0.50 and wrapper == "allow_args" and args:
         args = args + [3]
         pattern = "too-many"
-    w = allow_only_kwargs(f) if wrapper == "allow_only_kwargs" else allow_args(f)
+    try:
+        w = allow_only_kwargs(f) if wrapper == "allow_only_kwargs" else allow_args(f)
+    except Exception as e:  # noqa: BLE001
+        out["evals"] = 1
+        out["sig"] = f"{wrapper} kinds={''.join(k[3] for k in kinds)} wrap"
+        vs.append({"clause": "the wrappers accept every function signature", "detail": f"def f({sig}); {wrapper}(f) raised {type(e).__name__}: {str(e)[:120]}",
+                   "key": f"C19:wrap:{type(e).__name__}"})
+        return out
     try:
         got = w(*args, **dict(kw))
     except ValueError:
